@@ -69,6 +69,8 @@ def generate(rng, tier):
                 for kk in (1, 3):
                     cases.append(('close%d' % k, ['gb.newloop 0 0 0 0 %d %d' % (aud, vid), 'gb.runclose 0 %d' % kk, 'gb.obs 0']))
                     k += 1
+            cases.append(('deadline%d' % k, ['gb.newloop 0 0 0 0 %d %d' % (aud, vid), 'gb.rundeadline 0 %d' % rng.choice([1, 10, 30])]))
+            k += 1
             for ms in (0, 5, 40):
                 cases.append(('cancel%d' % k, ['gb.newloop 0 0 0 0 %d %d' % (aud, vid), 'gb.runcancel 0 %d' % ms]))
                 k += 1
